@@ -2602,6 +2602,10 @@ class StepTr(Tr):
             raise Unsupported("while with a condition variable")
         cond, body = parts
         bs = [c for c in (body.get("inner", []) if body.get("kind") == "CompoundStmt" else [body]) if c.get("kind") != "NullStmt"]
+        if len(bs) == 1 and bs[0].get("kind") == "CompoundAssignOperator" and bs[0].get("opcode") in ("+=", "-=") and \
+                unwrap(bs[0]["inner"][1]).get("kind") == "IntegerLiteral" and unwrap(bs[0]["inner"][1]).get("value") == "1":
+            # `v += 1` / `v -= 1`: the same step as `++v` / `--v`
+            bs = [{"kind": "UnaryOperator", "opcode": "++" if bs[0]["opcode"] == "+=" else "--", "inner": [bs[0]["inner"][0]]}]
         if not (len(bs) == 1 and bs[0].get("kind") == "UnaryOperator" and bs[0].get("opcode") in ("++", "--") and
                 unwrap(bs[0]["inner"][0]).get("kind") == "DeclRefExpr" and canon_type(strip_type(qt(bs[0]["inner"][0]))) == "int" and
                 unwrap(bs[0]["inner"][0])["referencedDecl"].get("kind") == "VarDecl"):
